@@ -189,6 +189,9 @@ def run(ctx):
             return a is not None and bnode is not None and src_of(a) == src_of(bnode)
 
         probs = []
+        # a procedure of the module called in the accepting branch may do the storing: which values it stores is then
+        # decided by the evaluated cascade (R9), not by this statement template
+        stores_elsewhere = any(isinstance(st, ast.Expr) and isinstance(st.value, ast.Call) and any(cs.node is st.value and cs.callees and cs.callees[0].module is casc.module for cs in casc.calls) for st in walk_stmts(branch))
         ob_orig = isinstance(a_ob, ast.Name) and a_ob.id in originals and originals[a_ob.id] == [f"{res}['obasis']"]
         if stores["obasis"] is not None:
             if not same(a_ob, stores["obasis"]):
@@ -200,7 +203,7 @@ def run(ctx):
             if stores[key] is not None:
                 if not same(arg, stores[key]):
                     probs.append(f"stores {nm} coefficients `{src_of(stores[key])}` but validated `{src_of(arg)}`")
-            elif not is_orig:
+            elif not is_orig and not stores_elsewhere:
                 probs.append(f"validated corrected {nm} coefficients `{src_of(arg)}` but does not store them")
         # corrected values must be derived from the matching original (alpha from alpha, beta from beta)
         def deps(arg):
@@ -272,7 +275,10 @@ def run(ctx):
 
     # ------------------------------------------------------------------ R5
     ctx.rule("R5", "vendor factor lists have the length of the shell they scale", "a correction mis-aligned with the basis functions (or an AssertionError on every file)")
-    helpers = [g for cs in casc.calls for g in cs.callees if cs.cls is None and g is not pred]
+    # correction helpers: module functions whose *result* the cascade uses; a function called as a bare statement (a
+    # procedure that stores the accepted values) is part of the cascade itself and is interpreted with it in R9
+    bare = {id(st.value) for st in walk_stmts(casc.body) if isinstance(st, ast.Expr) and isinstance(st.value, ast.Call)}
+    helpers = [g for cs in casc.calls for g in cs.callees if cs.cls is None and g is not pred and id(cs.node) not in bare]
     nf = 0
     for h in helpers:
         for st in walk_stmts(h.body):
